@@ -22,7 +22,8 @@ EXPLANATION = (
     "valid signature over value[:-L] with the carried key; lookups hand every received value to post_process_values, which "
     "reports max(version) per signer (collect + max, or a running maximum decided as a path query); Storage.put changes "
     "the key's list only on paths where the id was not found or version >= old was established (path query on the CFG, "
-    "independent of the try/if shape); Storage.clean examines every value (no early exit); store-peer requires the token "
+    "independent of the try/if shape); Storage.clean examines every value (no early exit); the fields Value.expired is computed "
+    "from are written only by the construction of a Value and by Storage.put (closed set of writers); store-peer requires the token "
     "and target == peer.mid. Locals are followed through their definitions, guards are taken from dominating facts; a "
     "guard, lookup or result that lives in a helper (decision helper answering bool / reason / tag / tuple, validator that "
     "raises, dispatch table, generator, acting helper) is followed into the helper with its parameters bound to the "
@@ -41,7 +42,9 @@ EXPLANATION = (
     "current); a memoised token function that receives the Node object, and a groupby reduction per signer over values in "
     "arrival order, are reported. When a gate can only live behind a call the analysis cannot look into, or a selection / sweep has none of "
     "the recognised structures, the answer is `undecided` (exit 2), not a violation. Interleavings with clock advances are not "
-    "explored."
+    "explored. Tables of (lazy test, reason) rows scanned by next(.., None) / any / a loop say for every row what the test said; "
+    "a `match` over a display of tests says what its patterns test; sum() of booleans is a quantifier; a bound method bound "
+    "early to a local is that method; a flag computed in try/else and tested later says what its definition says."
 )
 
 DC = "ipv8/dht/community.py"
@@ -753,6 +756,64 @@ class _FlagReach:
         return {n for n, _ in seen}
 
 
+def _literal_rows(fi: FuncInfo, e: ast.AST | None):
+    """the rows of a table written as a tuple / list display: in place, through a single-assignment local, a module constant
+    or a class attribute (`self.ROWS` / `Cls.ROWS`); None when e is not such a table.  Rows of a table written outside the
+    function may not mention a name that is a local of the function (their names would be read in another scope)."""
+    if e is None:
+        return None
+    t = resolve(fi, _unwrap_iter(e))
+    t, outside = _unwrap_iter(t), False
+    if isinstance(t, ast.Name) and not _is_local(fi, t.id) and t.id in fi.module.constants:
+        t, outside = strip_cast(fi.module.constants[t.id]), True
+    elif isinstance(t, ast.Attribute) and isinstance(t.value, ast.Name) and fi.cls is not None and not fi.cls.lookup(t.attr) \
+            and (t.value.id in ("self", "cls") and t.value.id in fi.params()[:1] or t.value.id in [c.name for c in fi.cls.mro()] and not _is_local(fi, t.value.id)):
+        a = fi.cls.lookup_attr(t.attr)
+        family = [fi.cls, *fi.cls.all_subclasses()]
+        if a is None or any(t.attr in c.attrs for c in family[1:]) \
+                or any(isinstance(n, ast.Attribute) and isinstance(n.ctx, (ast.Store, ast.Del)) and n.attr == t.attr
+                       for c in family for m in c.methods.values() for n in ast.walk(m.node)):
+            return None                                    # a subclass may hold another table / the attribute is rebound on the instance
+        t, outside = strip_cast(a), True
+    if not isinstance(t, (ast.Tuple, ast.List)) or not t.elts or any(isinstance(x, ast.Starred) for x in t.elts):
+        return None
+    if outside:
+        own = {a.arg for n in ast.walk(t) if isinstance(n, ast.Lambda) for a in n.args.args + n.args.kwonlyargs + n.args.posonlyargs}
+        if any(isinstance(n, ast.Name) and n.id not in own and _is_local(fi, n.id) for n in ast.walk(t)):
+            return None
+    return list(t.elts)
+
+
+def _beta(ctx: Ctx | None, fi: FuncInfo, e: ast.AST | None, depth: int = 0):
+    """e with the calls of lambdas and functools.partial objects that are written in place written out (`(lambda: T)()` is T,
+    `partial(f, a)(b)` is f(a, b)); None when such a call cannot be written out"""
+    if e is None or depth > 6:
+        return None
+    bad = []
+
+    def rep(n):
+        for f, v in ast.iter_fields(n):
+            if isinstance(v, ast.AST):
+                setattr(n, f, rep(v))
+            elif isinstance(v, list):
+                setattr(n, f, [rep(x) if isinstance(x, ast.AST) else x for x in v])
+        if isinstance(n, ast.Call):
+            fn = strip_cast(n.func)
+            if isinstance(fn, ast.Lambda) or isinstance(fn, ast.Call) and _lib_name(fi, fn.func, "functools", ("partial",)):
+                if any(isinstance(a, ast.Starred) for a in n.args) or any(k.arg is None for k in n.keywords):
+                    bad.append(n)
+                    return n
+                x = _apply_callable(ctx, fi, fn, list(n.args), list(n.keywords))
+                x = _beta(ctx, fi, x, depth + 1) if x is not None else None
+                if x is None:
+                    bad.append(n)
+                    return n
+                return x
+        return n
+    out = rep(clone(e))
+    return None if bad else out
+
+
 def _flag_reach(ctx: Ctx, fi: FuncInfo) -> _FlagReach:
     cache = getattr(ctx, "_c15_flag_reach", None)
     if cache is None:
@@ -884,15 +945,15 @@ class _Frame:
         fi, cfg = self.fi, self.cfg
         if not isinstance(loop, ast.For) or loop.orelse:
             return []
-        table = resolve(fi, _unwrap_iter(loop.iter))
-        if not isinstance(table, (ast.Tuple, ast.List)) or not table.elts or any(isinstance(x, ast.Starred) for x in table.elts):
+        table_rows = _literal_rows(fi, loop.iter)
+        if not table_rows:
             return []
         t = loop.target
         names = [t] if isinstance(t, ast.Name) else list(t.elts) if isinstance(t, ast.Tuple) else []
         if not names or not all(isinstance(x, ast.Name) and len(local_defs(fi, x.id)) == 1 for x in names):
             return []
         rows = []
-        for row in table.elts:
+        for row in table_rows:
             row = strip_cast(row)
             if isinstance(t, ast.Name):
                 rows.append([row])
@@ -902,11 +963,13 @@ class _Frame:
                 return []
         heads = [n for n in cfg.nodes_for(loop) if n.kind == "loop"]
         out = []
+        tnames = [x.id for x in names]
         for c in cfg.nodes:
-            if c.kind != "cond" or not isinstance(c.ast, ast.Name) or loop not in list(ancestors(c.ast)):
+            if c.kind != "cond" or c.ast is None or loop not in list(ancestors(c.ast)):
                 continue
-            k = next((i for i, x in enumerate(names) if x.id == c.ast.id), None)
-            if k is None:
+            k = next((i for i, x in enumerate(names) if x.id == c.ast.id), None) if isinstance(c.ast, ast.Name) else None
+            lazy = k is None and any(isinstance(n, ast.Name) and n.id in tnames for n in ast.walk(c.ast))
+            if k is None and not lazy:
                 continue
             for pol in (True, False):
                 # an iteration gets back to the loop head only over this outcome of the test
@@ -914,7 +977,165 @@ class _Frame:
                            for h in heads)
                 if heads and not back:
                     for row in rows:
-                        out += _atoms_with_polarity(row[k], pol)
+                        if k is not None:
+                            out += _atoms_with_polarity(row[k], pol)
+                            continue
+                        # the test is written over the row (`if rejected():`, `if check(payload):`): what it says about this row
+                        t = _beta(self.ctx, fi, _subst(c.ast, dict(zip(tnames, row)), {}))
+                        for x in (_atoms_with_polarity(t, pol) if t is not None else []):
+                            x.atom = c.ast                 # evaluated where the loop tests it
+                            out.append(x)
+        return out
+
+    def _match_facts(self):
+        """what a `match` statement over a display of tests says at the frame's site (`match (<too long>, <too many>):` /
+        `case (True, _): <leave>`): inside the body of a case its pattern matched and the patterns of the cases before it did
+        not; after the statement (no body ran) no pattern matched.  A pattern is read as the tests it makes on the parts of the
+        subject (`True` / `False` / `None`: identity, a value: equality, `_` / a capture: none); a pattern that failed says
+        something only when it makes exactly one test.  Cases with a guard say nothing."""
+        fi, cfg = self.fi, self.cfg
+        out = []
+        matches = [m for m in walk_no_nested(fi.node) if isinstance(m, ast.Match)]
+        ns = self.nodes() if matches else []
+        if not ns:
+            return out
+
+        def tests(pat, subj):
+            """[(part of the subject, "is" | "eq", value expression)]; None = not expressible"""
+            if isinstance(pat, ast.MatchSingleton):
+                return [(subj, "is", ast.Constant(value=pat.value))]
+            if isinstance(pat, ast.MatchValue):
+                return [(subj, "eq", pat.value)]
+            if isinstance(pat, ast.MatchAs):
+                return [] if pat.pattern is None else tests(pat.pattern, subj)
+            if isinstance(pat, ast.MatchSequence) and isinstance(subj, (ast.Tuple, ast.List)) and len(subj.elts) == len(pat.patterns) \
+                    and not any(isinstance(x, ast.MatchStar) for x in pat.patterns) and not any(isinstance(x, ast.Starred) for x in subj.elts):
+                acc = []
+                for q, e in zip(pat.patterns, subj.elts):
+                    t = tests(q, e)
+                    if t is None:
+                        return None
+                    acc += t
+                return acc
+            return None
+
+        def said(t, pol):
+            e, kind, val = t
+            if kind == "is" and isinstance(val.value, bool):
+                b = strip_cast(e)
+                if _bool_valued(b) or isinstance(b, ast.Call) and _builtin(fi, b.func, ("any", "all", "bool", "isinstance", "callable", "hasattr")):
+                    return _atoms_with_polarity(e, pol is val.value)
+            op = ast.Is() if kind == "is" else ast.Eq()
+            x = fact_of(ast.Compare(left=e, ops=[op], comparators=[val]), pol)
+            x.atom = e
+            return [x]
+
+        for m in matches:
+            heads = [n for n in cfg.nodes_for(m.subject) if n.kind == "stmt" and n.ast is m.subject]
+            if len(heads) != 1 or any(n in ns for n in heads):
+                continue
+            h = heads[0]
+
+            def case_of(v, m=m):
+                if v.ast is None:
+                    return None
+                return next((i for i, c in enumerate(m.cases) if any(a is c for a in ancestors(v.ast))), None)
+            where = None
+            for j in [*range(len(m.cases)), None]:
+                r = self.reach(cut_edge=lambda u, v, lab, h=h, j=j: u is h and case_of(v) == j)
+                if not any(n in r for n in ns):
+                    where = len(m.cases) if j is None else j
+                    break
+            if where is None:
+                continue
+            subj = strip_cast(m.subject)
+            known: dict = {}                               # id(part of the subject that answers a bool) -> the bool it is known to be
+
+            def is_bool(e):
+                b = strip_cast(e)
+                return _bool_valued(b) or isinstance(b, ast.Call) and bool(_builtin(fi, b.func, ("any", "all", "bool", "isinstance", "callable", "hasattr")))
+            for i, c in enumerate(m.cases[:where + 1]):
+                if c.guard is not None:
+                    continue
+                ts = tests(c.pattern, subj)
+                if ts is None:
+                    continue
+                if i == where:
+                    for t in ts:
+                        out += said(t, True)
+                    continue
+                # tests that are known to hold (from the cases that failed before) are not the reason why this case failed
+                holds = lambda t: t[1] == "is" and isinstance(t[2].value, bool) and known.get(id(t[0])) is t[2].value  # noqa: E731
+                fails = lambda t: t[1] == "is" and isinstance(t[2].value, bool) and known.get(id(t[0])) is (not t[2].value)  # noqa: E731
+                if any(fails(t) for t in ts):
+                    continue
+                ts = [t for t in ts if not holds(t)]
+                if len(ts) == 1:
+                    out += said(ts[0], False)
+                    e, kind, val = ts[0]
+                    if kind == "is" and isinstance(val.value, bool) and is_bool(e):
+                        known[id(e)] = not val.value
+        return out
+
+    def _scan_facts(self, f):
+        """a fact that says that a scan over a table of rows (a display, through a local / module constant / class attribute)
+        found nothing: `next((<e> for <row> in TABLE if <test>), None) is None`, a falsy `next(.., <falsy constant>)`, a falsy
+        `any(<test> for <row> in TABLE)`, a truthy `all(..)`.  Every row was looked at, so the test had the outcome `not found`
+        for each row (with the row's parts put in for the loop variables and calls of the row's lambdas / partials written out)"""
+        fi, ctx = self.fi, self.ctx
+        want = None                                          # ("none" | "falsy", next call) / ("any" | "all", generator)
+        if f.op == "is" and f.pos and _is_none(f.right) or f.op == "truthy" and not f.pos:
+            e = strip_cast(f.left)
+            if isinstance(e, ast.Name):
+                d = _reaching_def(fi, e.id, self.cfg, f.atom)
+                e = strip_cast(d[0]) if d is not None and d[1] is None else None
+            if isinstance(e, ast.Call) and _builtin(fi, e.func, ("next",)) and len(e.args) == 2 and not e.keywords \
+                    and isinstance(strip_cast(e.args[1]), ast.Constant):
+                dflt = strip_cast(e.args[1]).value
+                if f.op == "is" and dflt is None:
+                    want = ("none", _as_genexp(ctx, fi, e.args[0]))
+                elif f.op == "truthy" and not dflt:
+                    want = ("falsy", _as_genexp(ctx, fi, e.args[0]))
+        if want is None and f.op == "truthy":
+            q = _as_quantifier(ctx, fi, f.left)
+            if q is not None and (q[0] == "any" and not f.pos or q[0] == "all" and f.pos):
+                want = q
+        if want is None or not isinstance(want[1], (ast.GeneratorExp, ast.ListComp, ast.SetComp)) or len(want[1].generators) != 1:
+            return []
+        kind, gen = want
+        g = gen.generators[0]
+        rows = _literal_rows(fi, g.iter)
+        t = g.target
+        names = [t] if isinstance(t, ast.Name) else list(t.elts) if isinstance(t, (ast.Tuple, ast.List)) else []
+        if g.is_async or not rows or not names or not all(isinstance(x, ast.Name) for x in names):
+            return []
+        if kind in ("none", "falsy") and not g.ifs or kind == "all" and g.ifs:
+            return []
+        out = []
+        for row in rows:
+            row = strip_cast(row)
+            if isinstance(t, ast.Name):
+                env = {t.id: row}
+            elif isinstance(row, (ast.Tuple, ast.List)) and len(row.elts) == len(names) and not any(isinstance(x, ast.Starred) for x in row.elts):
+                env = {x.id: y for x, y in zip(names, row.elts)}
+            else:
+                return []
+            elt = _beta(ctx, fi, _subst(gen.elt, env, {}))
+            conds = [_beta(ctx, fi, _subst(c, env, {})) for c in g.ifs]
+            if elt is None or any(c is None for c in conds):
+                return []
+            if kind == "none" and not _never_none(elt) or kind == "falsy" and _known_truth(elt) is not True:
+                return []                                  # a row that was found could still answer None / something falsy
+            if kind in ("none", "falsy"):
+                test, pol = conds, False
+            elif kind == "any":
+                test, pol = [*conds, elt], False
+            else:
+                test, pol = [elt], True
+            test = test[0] if len(test) == 1 else ast.BoolOp(op=ast.And(), values=test)
+            for x in _atoms_with_polarity(test, pol):
+                x.atom = f.atom                            # known where the answer of the scan is tested
+                out.append(x)
         return out
 
     def facts(self):
@@ -932,6 +1153,9 @@ class _Frame:
             for a, p in ef:
                 if p is False and isinstance(a, ast.For):
                     fs += self._table_facts(a)
+            fs += self._match_facts()
+            for f in list(fs):
+                fs += self._scan_facts(f)
             self._facts = (fs, [(a, p) for a, p in ef if isinstance(a, (ast.For, ast.AsyncFor, ast.While))])
         return self._facts[0]
 
@@ -1369,6 +1593,36 @@ def _as_genexp(ctx: Ctx | None, fi: FuncInfo, e: ast.AST | None, depth: int = 0)
     return ast.GeneratorExp(elt=inner.elt, generators=gens)
 
 
+def _bool_valued(e: ast.AST | None) -> bool:
+    """the expression answers True or False (so that it counts 1 or 0 in a sum): a comparison, `not ..`, and / or of such"""
+    e = strip_cast(e) if e is not None else None
+    if isinstance(e, ast.Compare):
+        return True
+    if isinstance(e, ast.UnaryOp) and isinstance(e.op, ast.Not):
+        return True
+    if isinstance(e, ast.BoolOp):
+        return all(_bool_valued(x) for x in e.values)
+    if isinstance(e, ast.Constant):
+        return isinstance(e.value, bool)
+    return False
+
+
+def _count_truth(fi: FuncInfo, f):
+    """a fact that compares a count sum(..) with 0 / 1 read as (the sum, is it non-zero?); None when f is not of this kind"""
+    def is_sum(x):
+        x = resolve(fi, x) if x is not None else None
+        return isinstance(x, ast.Call) and _builtin(fi, x.func, ("sum",)) is not None
+    b = _int_bound(f, is_sum)
+    if b is None:
+        return None
+    x = f.left if is_sum(f.left) else f.right
+    if b in (("lt", 1), ("eq", 0)):
+        return x, False
+    if b in (("ge", 1), ("ne", 0)):
+        return x, True
+    return None
+
+
 def _as_quantifier(ctx: Ctx | None, fi: FuncInfo, e: ast.AST | None):
     """("any" | "all", generator expression) for an expression that asks whether some / every element passes a test:
     any(G), all(G) over any spelling of G (see _as_genexp), next((True for x in X if C), False)"""
@@ -1391,7 +1645,19 @@ def _as_quantifier(ctx: Ctx | None, fi: FuncInfo, e: ast.AST | None):
         if gen is not None and isinstance(gen.elt, (ast.Compare, ast.BoolOp, ast.UnaryOp)):
             return ("any" if op == "or_" else "all"), gen
         return None
-    q = _builtin(fi, e.func, ("any", "all", "next"))
+    q = _builtin(fi, e.func, ("any", "all", "next", "sum"))
+    if q == "sum" and (len(e.args) == 1 or len(e.args) == 2 and const_value(strip_cast(e.args[1])) == 0 and type(const_value(strip_cast(e.args[1]))) is int):
+        # a count of hits is non-zero iff there is a hit: sum(<test> for x in X), sum(1 for x in X if <test>), sum(map(<test>, X))
+        gen = _as_genexp(ctx, fi, e.args[0])
+        if gen is None or len(gen.generators) != 1 or gen.generators[0].is_async:
+            return None
+        g = gen.generators[0]
+        if _bool_valued(gen.elt):
+            return "any", gen
+        if type(const_value(strip_cast(gen.elt))) is int and const_value(strip_cast(gen.elt)) > 0 and g.ifs:
+            cond = g.ifs[0] if len(g.ifs) == 1 else ast.BoolOp(op=ast.And(), values=list(g.ifs))
+            return "any", ast.GeneratorExp(elt=cond, generators=[ast.comprehension(target=g.target, iter=g.iter, ifs=[], is_async=0)])
+        return None
     if q in ("any", "all") and len(e.args) == 1:
         gen = _as_genexp(ctx, fi, e.args[0])
         if q == "any" and gen is not None and len(gen.generators) == 1 and not gen.generators[0].ifs and _known_truth(gen.elt) is True:
@@ -1440,7 +1706,8 @@ def _size_gate(fr: _Frame, is_values) -> bool:
     """every value of the request is known to be <= MAX_ENTRY_SIZE when the frame's site is reached"""
     fi, cfg = fr.fi, fr.cfg
     for f in fr.facts():
-        q = _as_quantifier(fr.ctx, fi, f.left) if f.op == "truthy" else None      # also any(map(<too long>, values)), next((True for ..), False)
+        subj, fpos = (f.left, f.pos) if f.op == "truthy" else (_count_truth(fi, f) or (None, None))      # sum(..) == 0, sum(..) > 0
+        q = _as_quantifier(fr.ctx, fi, subj) if subj is not None else None      # also any(map(<too long>, values)), next((True for ..), False)
         if q is None:
             continue
         q, gen = q
@@ -1449,9 +1716,9 @@ def _size_gate(fr: _Frame, is_values) -> bool:
         g = gen.generators[0]
         if g.ifs or g.is_async or not isinstance(g.target, ast.Name) or not is_values(_unwrap_iter(g.iter)):
             continue
-        if q == "any" and not f.pos and _too_long(fr, gen.elt, True, g.target.id) is True:
+        if q == "any" and not fpos and _too_long(fr, gen.elt, True, g.target.id) is True:
             return True                    # not any(len(v) > MAX for v in values)
-        if q == "all" and f.pos and _too_long(fr, gen.elt, True, g.target.id) is False:
+        if q == "all" and fpos and _too_long(fr, gen.elt, True, g.target.id) is False:
             return True                    # all(len(v) <= MAX for v in values)
         # (handled above: any / all over the values)
     for f in fr.facts():
@@ -1527,6 +1794,18 @@ def _used_only_by(repo, fi: FuncInfo | None, roots: set[str], depth: int = 0) ->
     return bool(users) and all(_used_only_by(repo, g, roots, depth + 1) for g in users)
 
 
+def _bound_chain(fi: FuncInfo, f: ast.AST | None) -> str | None:
+    """chain of a callee expression; a local bound once to `self.<method of the class>` (early binding: `check = self.check_token`
+    ... `check(node, token)`) reads as that bound method of the same object"""
+    if f is None:
+        return None
+    if isinstance(strip_cast(f), ast.Name) and fi.cls is not None and fi.params()[:1] == ["self"] and not local_defs(fi, "self"):
+        r = resolve(fi, f)
+        if isinstance(r, ast.Attribute) and chain(r.value) == "self" and isinstance(fi.cls.lookup(r.attr), FuncInfo):
+            return chain(r)
+    return chain(f)
+
+
 def _element_of_values(fi: FuncInfo, site: ast.AST, val: ast.AST | None, is_values) -> bool:
     """val, used at site, is an element of the request's values: the variable of an enclosing loop / comprehension over them
     (also through enumerate / reversed / list), or a subscript of them"""
@@ -1559,6 +1838,9 @@ def rule_store_gate(ctx: Ctx) -> None:
         bound to partial(self.add_value, ..) applied to the value, or map(<such a callable>, <values>)"""
         if chain(c.func) == "self.add_value":
             return c, None
+        if isinstance(c.func, ast.Name) and chain(resolve(f, c.func)) == "self.add_value" and f.params()[:1] == ["self"] and not local_defs(f, "self"):
+            # early binding: `add = self.add_value` ... `add(key, value, ..)` (the bound method of the same object)
+            return ast.Call(func=resolve(f, c.func), args=list(c.args), keywords=list(c.keywords)), None
         if isinstance(c.func, ast.Name) and isinstance(resolve(f, c.func), (ast.Call, ast.Lambda)):
             x = _apply_callable(ctx, f, c.func, list(c.args), list(c.keywords))
             return (x, None) if isinstance(x, ast.Call) and chain(x.func) == "self.add_value" else (None, None)
@@ -1573,12 +1855,12 @@ def rule_store_gate(ctx: Ctx) -> None:
     def requester_expr(fr: _Frame, e) -> bool:
         """e is (a local bound once to) self.get_requesting_node(<authenticated peer>)"""
         r = resolve(fr.fi, e) if e is not None else None
-        return isinstance(r, ast.Call) and chain(r.func) == "self.get_requesting_node" and fr.text(arg(r, 0, "peer")) == peer
+        return isinstance(r, ast.Call) and _bound_chain(fr.fi, r.func) == "self.get_requesting_node" and fr.text(arg(r, 0, "peer")) == peer
 
     req = []
     for st, targets, value in _assignments(fi):
         v = strip_cast(value)
-        if isinstance(v, ast.Call) and chain(v.func) == "self.get_requesting_node":
+        if isinstance(v, ast.Call) and _bound_chain(fi, v.func) == "self.get_requesting_node":
             if _rnorm(fi, arg(v, 0, "peer")) == peer:
                 req += [(st, t.id) for t in targets if isinstance(t, ast.Name)]
             continue
@@ -1649,10 +1931,11 @@ def rule_store_gate(ctx: Ctx) -> None:
 
     def p_token(fr: _Frame) -> bool:
         for f in fr.facts():
-            if f.op == "truthy" and f.pos and isinstance(f.left, ast.Call) and chain(f.left.func) == "self.check_token" \
+            if f.op == "truthy" and f.pos and isinstance(f.left, ast.Call) and _bound_chain(fr.fi, f.left.func) == "self.check_token" \
                     and is_rn(fr, arg(f.left, 0, "node")) and fr.text(arg(f.left, 1, "token")) == f"{payload}.token":
                 # the token check must see the requesting node, i.e. happen before that local is rebound (closest-nodes loop)
-                if sees_requester(fr.root_site() or f.left):
+                # (a check written out of a table row / lambda has no place of its own: it was made where the fact's test is)
+                if sees_requester(fr.root_site() or (f.left if fr.cfg.nodes_for(f.left) else f.atom)):
                     return True
         return False
 
@@ -3321,7 +3604,54 @@ def _put_version_guard(ctx: Ctx, put: FuncInfo):
                     return False
             return True
 
-        def cut(strict: bool):
+        flag_cache: dict = {}
+
+        def flag_guard(u, lab) -> bool:
+            """the test of a plain flag local (`if not stale:`, `if fresh:`) whose value was computed earlier: the outcome says about
+            each definition that reaches the test what it would say as a test at the place of that definition.  A definition
+            that is a constant consistent with the outcome is accepted only when its own place is already behind a guard (the
+            handler of the failed lookup); a constant that contradicts the outcome cannot have been the last definition."""
+            k = (id(u), lab)
+            if k in flag_cache:
+                return flag_cache[k]
+            flag_cache[k] = False                          # (re-entry while deciding: not established)
+            f = fact_of(u.ast, lab) if u.kind == "cond" and lab in (True, False) and u.ast is not None else None
+            nm = strip_cast(f.left) if f is not None and f.op == "truthy" else None
+            if not isinstance(nm, ast.Name) or nm.id in fr.fi.params() or any(isinstance(x, (ast.Nonlocal, ast.Global)) for x in ast.walk(fr.fi.node)):
+                return False
+            defs = local_defs(fr.fi, nm.id)
+            if not defs or len(defs) > 6 or any(val is None or idx is not None or not isinstance(st, (ast.Assign, ast.AnnAssign)) for st, val, idx in defs):
+                return False
+            placed = [[n for n in c.nodes_for(st) if n.ast is st] for st, _, _ in defs]
+            alln = [n for ns in placed for n in ns]
+            if not all(placed) or u in c.reach(cut_nodes=alln):
+                return False                               # a definition inside another statement / the test can run before any definition
+            base = None
+            for (st, val, _), ns in zip(defs, placed):
+                others = [n for n in alln if n not in ns]
+                if u not in c.reach([v for n in ns for v, l2 in n.succ if l2 != "exc"], cut_nodes=others):
+                    continue                               # this definition never is the last one before the test
+                v = resolve(fr.fi, val) if not isinstance(strip_cast(val), ast.Name) or strip_cast(val).id != nm.id else strip_cast(val)
+                t = _known_truth(v) if isinstance(v, ast.Constant) else None
+                if t is not None:
+                    if t is not f.pos:
+                        continue
+                    # the flag keeps this constant up to the test only on paths that are behind a guard already: on the way to
+                    # the definition, or between the definition and the test (`ok = True` / try: lookup / except ValueError: pass)
+                    if base is None:
+                        base = fr.reach(cut_edge=cut(True, False))
+                    if any(n in base for n in ns) and \
+                            u in fr.reach([v for n in ns for v, l2 in n.succ if l2 != "exc"], cut_nodes=others, cut_edge=cut(True, False)):
+                        return False
+                    continue
+                at = fr.at(st)
+                fs = _atoms_with_polarity(v, f.pos)
+                if not any(not_older(at, x, at.facts() + [x]) or not_found(at, x) for x in fs):
+                    return False
+            flag_cache[k] = True
+            return True
+
+        def cut(strict: bool, flags: bool = True):
             def pred(u, v, lab):
                 if lab == "exc":
                     if u in lk_nodes and v.kind == "dispatch":
@@ -3330,7 +3660,7 @@ def _put_version_guard(ctx: Ctx, put: FuncInfo):
                         # subscripts, attribute reads, integer comparisons and pop/insert/sort never raise ValueError
                         return cannot_raise_value_error(u) or not strict
                     return False
-                return edge_guard(fr, u, lab)
+                return edge_guard(fr, u, lab) or flags and flag_guard(u, lab)
             return pred
         ns = [n for n in fr.nodes()]
         ok = bool(ns) and all(n not in fr.reach(cut_edge=cut(True)) for n in ns)
@@ -3830,6 +4160,45 @@ def rule_storage(ctx: Ctx) -> None:
         fs = _atoms_with_polarity(v, True) if v is not None else []
         ok = len(fs) == 1 and fs[0].op == "lt" and fs[0].pos and norm(fs[0].left) == "self.max_age" and norm(fs[0].right) == "self.age"
     ctx.check(ok, "expiry-sweep", ex or cl, (ex or cl).node, "expired = age > max_age", "expiry is not age > max_age")
+    # the lifetime clock of a stored value runs from the moment it was stored: the fields `expired` is computed from are written
+    # only where a Value is built (its constructor) or where an accepted put replaces the entry - never by a read path
+    vcls = repo.cls("Value", DS)
+    clock, todo = set(), ["expired"]
+    while todo:
+        nm = todo.pop()
+        getter = vcls.methods.get(nm)
+        if getter is None or "property" not in " ".join(getter.decorator_names()) or not getter.params():
+            continue
+        for x in ast.walk(getter.node):
+            if isinstance(x, ast.Attribute) and isinstance(x.ctx, ast.Load) and chain(x.value) == getter.params()[0] and x.attr not in clock:
+                if x.attr in vcls.methods:
+                    todo.append(x.attr)
+                else:
+                    clock.add(x.attr)
+    clock = clock or {"last_update", "max_age"}
+    writers = {"Value.__init__", "Value.__post_init__", "Value.__new__", "Storage.put"}
+    for rel in _DHT_FILES:
+        m = repo.by_relpath.get(rel) if hasattr(repo, "by_relpath") else None
+        if m is None or not any(a in m.src for a in clock):
+            continue
+        for x in ast.walk(m.tree):
+            hit = None
+            if isinstance(x, ast.Attribute) and isinstance(x.ctx, (ast.Store, ast.Del)) and x.attr in clock:
+                hit = x
+            elif isinstance(x, ast.Call) and (chain(x.func) or "").split(".")[-1] in ("setattr", "__setattr__", "delattr") and len(x.args) >= 2 \
+                    and any(const_value(a) in clock for a in x.args[:2] if isinstance(const_value(a), str)):
+                hit = x
+            if hit is None:
+                continue
+            g = repo.function_of(hit)
+            st = hit
+            while parent(st) is not None and not isinstance(st, ast.stmt):
+                st = parent(st)
+            ok = g is not None and _used_only_by(repo, g, writers)
+            ctx.check(ok, "expiry-sweep", g or rel, st, "the lifetime clock of a value is set only where the value is built / an accepted put replaces it",
+                      f"`{norm(hit)}` in {g.qualname if g is not None else rel} rewrites a field that Value.expired is computed from ({', '.join(sorted(clock))}) outside "
+                      "the construction of a Value and Storage.put: the lifetime assigned at store time is restarted / stretched, so a value past its "
+                      "lifetime is not gone after maintenance (e.g. any lookup keeps it alive without a token)")
 
 
 # ------------------------------------------------------------------------------------------------ store-peer
@@ -3866,7 +4235,7 @@ def rule_store_peer(ctx: Ctx) -> None:
 
     def p_token(fr: _Frame) -> bool:
         for f in fr.facts():
-            if f.op == "truthy" and f.pos and isinstance(f.left, ast.Call) and chain(f.left.func) == "self.check_token" \
+            if f.op == "truthy" and f.pos and isinstance(f.left, ast.Call) and _bound_chain(fr.fi, f.left.func) == "self.check_token" \
                     and fr.text(arg(f.left, 1, "token")) == f"{payload}.token" and arg(f.left, 0, "node") is not None \
                     and sender_node(fr.top(arg(f.left, 0, "node"), follow=False)):
                 return True
@@ -4438,6 +4807,9 @@ def run(ctx: Ctx) -> None:
 
 
 WITNESSES = [
+    {"name": "a lookup restarts the lifetime of the values it serves", "file": DS, "rule": "expiry-sweep",
+     "old": "        upper_bound = (starting_point + limit) if limit else limit\n",
+     "new": "        upper_bound = (starting_point + limit) if limit else limit\n        for value in self.items.get(key, []):\n            value.last_update = time.time()\n"},
     {"name": "pre-fix: clean stops at first unexpired", "file": DS, "rule": "expiry-sweep",
      "old": "                if value.expired:\n                    self.items[key].pop(index)\n",
      "new": "                if value.expired:\n                    self.items[key].pop(index)\n                else:\n                    break\n"},
